@@ -31,20 +31,28 @@ func c17() []*Ob {
 				setM := Callee("(*frac.DocsPositions).SetMultiple")
 				filt := Callee("(*frac.metaDataCollector).Filter")
 				MustPrecede(c, fn, setM, "SetMultiple", filt, "collector.Filter")
-				fcalls := CallsIn(fn, filt)
-				if len(fcalls) == 0 {
+				// the filter call may sit in appendWorker or in a private helper of it (together with SetMultiple or not)
+				lifted := c.P.FindLifted(fn, CallSel(filt))
+				if len(lifted) == 0 {
 					return
 				}
-				f := fcalls[0]
-				sm := CallsIn(fn, setM)
-				if len(sm) > 0 && Arg(f, 0) == sm[0].Value() {
+				f := lifted[0].Call()
+				ftop := lifted[0].Top()
+				sm := CallsIn(f.Parent(), setM)
+				isAppended := func(x ssa.Value) bool {
+					if len(sm) > 0 {
+						return x == sm[0].Value()
+					}
+					return c.P.DerivesFromIP(x, func(v ssa.Value) bool { cl, ok := v.(ssa.CallInstruction); return ok && setM(cl) })
+				}
+				if isAppended(Arg(f, 0)) {
 					c.Site(f.Pos(), "Filter receives exactly the ids SetMultiple reported as stored")
 				} else {
 					c.Violation("prov:appendWorker:filter-arg", f.Pos(), "collector.Filter is not given SetMultiple's result")
 				}
 				// guard: len(appended) != len(collector.IDs)
 				okGuard := false
-				for _, fact := range FactsAtInstr(f.(ssa.Instruction)) {
+				for _, fact := range lifted[0].Facts() {
 					bo, ok := fact.Cond.(*ssa.BinOp)
 					if !ok || (bo.Op != token.NEQ && bo.Op != token.EQL) || (bo.Op == token.NEQ) != fact.Val {
 						continue
@@ -53,7 +61,7 @@ func c17() []*Ob {
 						cl, ok := v.(*ssa.Call)
 						return ok && CallName(cl) == "builtin.len" && pred(cl.Call.Args[0])
 					}
-					a := isLenOf(bo.X, func(x ssa.Value) bool { return len(sm) > 0 && x == sm[0].Value() }) || isLenOf(bo.Y, func(x ssa.Value) bool { return len(sm) > 0 && x == sm[0].Value() })
+					a := isLenOf(bo.X, isAppended) || isLenOf(bo.Y, isAppended)
 					b := isLenOf(bo.X, func(x ssa.Value) bool { return ValueIsField(x, "frac.metaDataCollector", "IDs") }) || isLenOf(bo.Y, func(x ssa.Value) bool { return ValueIsField(x, "frac.metaDataCollector", "IDs") })
 					if a && b {
 						okGuard = true
@@ -74,14 +82,14 @@ func c17() []*Ob {
 					{Callee("(*frac.Active).UpdateStats"), "UpdateStats", "DocsCounter"},
 				} {
 					for _, call := range CallsIn(fn, it.m) {
-						if Dominates(call.(ssa.Instruction), f.(ssa.Instruction)) {
+						if Dominates(call.(ssa.Instruction), ftop) {
 							c.Violation("order:appendWorker:"+it.name+"-before-filter", call.Pos(), "%s runs before the duplicate filter", it.name)
 							continue
 						}
 						okLoad := true
 						for _, a := range call.Common().Args {
 							if ld, ok := a.(*ssa.UnOp); ok && IsFieldAddr(ld.X, "frac.metaDataCollector", it.field) {
-								if ld.Block().Dominates(f.(ssa.Instruction).Block()) && ld.Block() != call.(ssa.Instruction).Block() {
+								if ld.Block().Dominates(ftop.Block()) && ld.Block() != call.(ssa.Instruction).Block() {
 									okLoad = false
 								}
 							}
